@@ -309,7 +309,7 @@ func (h *host) present(l *inBlockLists, d ibDesc) (a ibAsk, ok bool) {
 	case "v2sc", "v1sc":
 		out, mat := l.scOut[body], l.scMat[body]
 		if altered {
-			out.Value = out.Value.Add(types.NewCurrency64(1))
+			out.Value = out.Value.Add(types.NewCurrency64(1_000_003)) // contents no created entry has
 		}
 		mat += uint64(d.mat)
 		if d.door == "v2sc" {
@@ -330,7 +330,7 @@ func (h *host) present(l *inBlockLists, d ibDesc) (a ibAsk, ok bool) {
 			out = l.sfOut[body]
 		}
 		if altered {
-			out.Value++
+			out.Value += 100_003 // contents no created entry has
 		}
 		if d.door == "v2sf" {
 			p := types.SiafundElement{ID: types.SiafundOutputID(id), StateElement: types.StateElement{LeafIndex: types.UnassignedLeafIndex}, SiafundOutput: out}
